@@ -166,7 +166,8 @@ Definition piece (g : vgrid) (c : Z) (bins : Z -> Z -> list entry) (i : nat) (p 
   let v := vox_index g p in
   let r := vox_range g c p (fst v) (snd v) y z in
   if r_skip r then []
-  else filter (fun e => in_ranges g (vx p) r (bins (wy_of g y) (wz_of g z)) (vx (snd e)) && final_ok g c i p r e)
+  else filter (cand_ok g c i p r (has_below g (vx p) r (bins (wy_of g y) (wz_of g z)))
+                                 (has_above g (vx p) r (bins (wy_of g y) (wz_of g z))))
               (bins (wy_of g y) (wz_of g z)).
 
 Lemma half_list_pieces g c bins i p :
@@ -191,21 +192,31 @@ Proof.
     apply in_flat_map. exists y. split; [exact Hy|]. apply in_map_iff. now exists e.
 Qed.
 
+Lemma cand_ok_iff g c i p r below above e :
+  cand_ok g c i p r below above e = true <->
+  (fst e < i)%nat /\ in_ranges g (vx p) r below above (vx (snd e)) = true /\ dist_ok g c p r (snd e) = true.
+Proof.
+  unfold cand_ok. destruct (in_ranges _ _ _ _ _ _).
+  - destruct (Nat.ltb (fst e) i) eqn:E1.
+    + apply Nat.ltb_lt in E1. tauto.
+    + apply Nat.ltb_ge in E1. split; [discriminate|]. intros (H & _). lia.
+  - split; [discriminate|]. intros (_ & H & _). discriminate.
+Qed.
+
 Lemma in_piece g c bins i p z y e :
   In e (piece g c bins i p z y) ->
-  In e (bins (wy_of g y) (wz_of g z)) /\
-  final_ok g c i p (vox_range g c p (fst (vox_index g p)) (snd (vox_index g p)) y z) e = true.
+  In e (bins (wy_of g y) (wz_of g z)) /\ (fst e < i)%nat /\
+  dist_ok g c p (vox_range g c p (fst (vox_index g p)) (snd (vox_index g p)) y z) (snd e) = true.
 Proof.
   unfold piece. cbv zeta. destruct (r_skip _); [intros []|].
-  intros H. apply filter_In in H. destruct H as (H1 & H2). apply andb_true_iff in H2. tauto.
+  intros H. apply filter_In in H. destruct H as (H1 & H2). apply cand_ok_iff in H2. tauto.
 Qed.
 
 (* F1: only smaller indices *)
 Lemma half_list_lt g c bins i p j : In j (half_list g c bins i p) -> (j < i)%nat.
 Proof.
   intros H. apply in_half_list in H. destruct H as (z & y & e & _ & _ & He & <-).
-  apply in_piece in He. destruct He as (_ & Hf). unfold final_ok in Hf.
-  apply andb_true_iff in Hf. destruct Hf as (Hf & _). now apply Nat.ltb_lt in Hf.
+  apply in_piece in He. tauto.
 Qed.
 
 (* F4: a listed atom has a lattice image (the plain displacement when there is no cell) within the cutoff *)
@@ -227,8 +238,8 @@ Lemma half_list_sound g c bins i p j :
        (g_tric g = false /\ exists k1 k2 k3, norm2 (vsub d (k1 * b_ax (g_box g), k2 * b_by (g_box g), k3 * b_cz (g_box g))) <= c * c)))).
 Proof.
   intros _ H. apply in_half_list in H. destruct H as (z & y & e & _ & _ & He & Hj).
-  exists z, y, e. apply in_piece in He. destruct He as (Hin & Hf). split; [exact Hin|]. split; [exact Hj|].
-  cbv zeta. unfold final_ok in Hf. apply andb_true_iff in Hf. destruct Hf as (_ & Hf). cbv zeta in Hf.
+  exists z, y, e. apply in_piece in He. destruct He as (Hin & _ & Hf). split; [exact Hin|]. split; [exact Hj|].
+  cbv zeta. unfold dist_ok in Hf. cbv zeta in Hf.
   set (r := vox_range _ _ _ _ _ _ _) in Hf.
   destruct (r_needp r) eqn:En.
   - right.
